@@ -3,6 +3,8 @@ package checks
 import (
 	"fmt"
 
+	kio "github.com/flanglet/kanzi-go/v2/io"
+
 	"verifharness/container"
 	"verifharness/core"
 	"verifharness/kz"
@@ -14,6 +16,8 @@ type cutCase struct {
 	R    recipe `json:"recipe"`
 	Cut  int    `json:"cut"`
 	Jobs uint   `json:"jobs"`
+	From int    `json:"from,omitempty"` // block range given to the Reader (0 = none): cuts inside skipped blocks
+	To   int    `json:"to,omitempty"`
 }
 
 func runCutCase(c *cutCase) (kind, detail string, ok bool) {
@@ -29,9 +33,34 @@ func runCutCase(c *cutCase) (kind, detail string, ok bool) {
 		cf := c.R.Cfg
 		hc = &cf
 	}
-	rr := kz.Decompress(stream[:c.Cut], c.Jobs, hc)
+	var rr kz.ReadResult
+	if c.From > 0 || c.To > 0 {
+		ctx := map[string]any{"jobs": c.Jobs}
+		if c.From > 0 {
+			ctx["from"] = c.From
+		}
+		if c.To > 0 {
+			ctx["to"] = c.To
+		}
+		func() {
+			defer func() {
+				if x := recover(); x != nil {
+					rr.Err = &kz.ErrPanic{Val: x}
+				}
+			}()
+			r, err := kio.NewReaderWithCtx(&kz.Source{Data: stream[:c.Cut]}, ctx)
+			if err != nil {
+				rr.Err = err
+				return
+			}
+			rr = kz.ReadAll(r, []int{3000}, 0, 1<<24)
+			r.Close()
+		}()
+	} else {
+		rr = kz.Decompress(stream[:c.Cut], c.Jobs, hc)
+	}
 	if rr.Err == nil {
-		return "undetected", fmt.Sprintf("%d-byte prefix of a %d-byte stream read to io.EOF (%d bytes) without any error", c.Cut, len(stream), len(rr.Out)), true
+		return "undetected", fmt.Sprintf("%d-byte prefix of a %d-byte stream read to io.EOF (%d bytes) without any error (block range from=%d to=%d)", c.Cut, len(stream), len(rr.Out), c.From, c.To), true
 	}
 	if kz.IsPanic(rr.Err) {
 		return "panic-escaped", rr.Err.Error(), true
@@ -40,7 +69,7 @@ func runCutCase(c *cutCase) (kind, detail string, ok bool) {
 }
 
 func c09(run *core.Run, replay string) {
-	run.SetRule("valid streams (recipes below) are cut at EVERY byte position 0..len-1 (small streams: exhaustive) or at block-boundary-focused and random positions (large streams; streams of 130..260 small blocks cut -1..+9 bytes around every block header, covering the 64 alignments of a header in a word) and decoded with jobs 1..3; " +
+	run.SetRule("valid streams (recipes below) are cut at EVERY byte position 0..len-1 (small streams: exhaustive) or at block-boundary-focused and random positions (large streams; streams of 130..260 small blocks cut -1..+9 bytes around every block header, covering the 64 alignments of a header in a word) and decoded with jobs 1..3; the exhaustive cuts are repeated with block ranges given to the Reader (cut inside a block that is only skipped); " +
 		"oracle: reading must end with an error, never a clean io.EOF; non-trivial = cut inside or after the first block (header intact); distinct = (recipe, cut, jobs)")
 	if replay != "" {
 		var c cutCase
@@ -94,10 +123,23 @@ func c09(run *core.Run, replay string) {
 		}
 		for cut := 0; cut < len(stream); cut++ {
 			for _, j := range []uint{1, 3} {
-				cases = append(cases, &cutCase{small[i], cut, j})
+				cases = append(cases, &cutCase{small[i], cut, j, 0, 0})
 			}
 		}
 		run.Seen("recipes_cut_exhaustively", fmt.Sprintf("%s(%dB)", small[i].Name, len(stream)))
+		// the same cuts with a block range given to the Reader: the cut may fall inside a block that is only skipped
+		B := int(small[i].Cfg.BlockSize)
+		nb := (small[i].Size + B - 1) / B
+		if nb >= 3 && !small[i].Cfg.Headerless {
+			for vi, v := range [][2]int{{2, 0}, {0, 2}, {2, 3}, {nb, 0}, {0, nb + 1}, {nb + 1, nb + 3}} {
+				if !run.Thorough() && (vi+i)%2 == 1 {
+					continue
+				}
+				for cut := 0; cut < len(stream); cut++ {
+					cases = append(cases, &cutCase{small[i], cut, []uint{1, 3, 2}[(cut+vi)%3], v[0], v[1]})
+				}
+			}
+		}
 	}
 	for i := range large {
 		_, stream, err := large[i].build()
@@ -126,7 +168,7 @@ func c09(run *core.Run, replay string) {
 		}
 		for cut := range cuts {
 			if cut >= 0 && cut < len(stream) {
-				cases = append(cases, &cutCase{large[i], cut, uint(1 + cut%4)})
+				cases = append(cases, &cutCase{large[i], cut, uint(1 + cut%4), 0, 0})
 			}
 		}
 	}
@@ -156,7 +198,7 @@ func c09(run *core.Run, replay string) {
 		}
 		for cut := range cuts {
 			if cut >= 0 && cut < len(stream) {
-				cases = append(cases, &cutCase{rc, cut, uint(1 + cut%3)})
+				cases = append(cases, &cutCase{rc, cut, uint(1 + cut%3), 0, 0})
 			}
 		}
 	}
@@ -178,7 +220,10 @@ func c09(run *core.Run, replay string) {
 		}
 		run.Eval(1)
 		if c.Cut >= 22 || c.R.Cfg.Headerless {
-			run.Nontrivial(fmt.Sprintf("%s|%d|%d", c.R.Name, c.Cut, c.Jobs))
+			run.Nontrivial(fmt.Sprintf("%s|%d|%d|%d-%d", c.R.Name, c.Cut, c.Jobs, c.From, c.To))
+			if c.From > 0 || c.To > 0 {
+				run.Count("cuts_with_block_range", 1)
+			}
 		}
 		if k != "" {
 			run.Violate(fmt.Sprintf("C09 %s recipe=%s", k, c.R.Name), d, c)
